@@ -141,6 +141,82 @@ theorem proof_sig_s2_hits_once (σ : Sig G1) (h0 : σ.s1 ≠ 0) (v : G1) (r : F)
   · exact sub_eq_zero.mp h
   · exact absurd h h0
 
+/-! ### What the atoms do not depend on: hiding and simulation in bijection form
+
+The theorems above say that each atom is an injective function of a fresh draw.  The ones below say that the atoms
+carry no information about the hidden values: changing the hidden value can be absorbed by re-indexing the draw
+(a translation or a dilation of the scalar field, hence a bijection), so under a uniform draw the atom has the same
+distribution whatever is hidden.  No probability theory is needed to state this. -/
+
+/-- **Perfect hiding of a commitment.**  If `h` generates the group, then for any two message tuples the commitments
+coincide after shifting the blinding factor by a constant: `bf ↦ bf + d` is a bijection of the scalar field, so the
+commitment to `ms` under a uniform blinding factor is distributed exactly like the commitment to `ms'`. -/
+theorem commitment_independent_of_message (pp : PedParams G) (hgen : ∀ v : G, ∃ x : F, x • pp.h = v)
+    (ms ms' : List F) : ∃ d : F, ∀ bf : F, commit pp bf ms = commit pp (bf + d) ms' := by
+  obtain ⟨d, hd⟩ := hgen (inner ms pp.gs - inner ms' pp.gs)
+  refine ⟨d, fun bf => ?_⟩
+  unfold commit
+  rw [add_smul, hd]
+  module
+
+private theorem responses_reindexed (c : F) : ∀ (ms ms' ts : List F), ms'.length = ms.length → ts.length = ms.length →
+    List.zipWith (fun m t => c * m + t) ms'
+      (List.zipWith (fun t d => 1 * t + c * d) ts (List.zipWith (fun m m' => 1 * m + (-1) * m') ms ms'))
+    = List.zipWith (fun m t => c * m + t) ms ts
+  | [], [], [], _, _ => rfl
+  | [], _ :: _, _, h, _ => by simp at h
+  | [], [], _ :: _, _, h => by simp at h
+  | _ :: _, [], _, h, _ => by simp at h
+  | _ :: _, _ :: _, [], _, h => by simp at h
+  | m :: ms, m' :: ms', t :: ts, h1, h2 => by
+    simp only [List.zipWith_cons_cons, List.cons.injEq]
+    exact ⟨by ring, responses_reindexed c ms ms' ts (by simpa using h1) (by simpa using h2)⟩
+
+/-- **Witness independence of a commitment proof (perfect honest-verifier simulation).**  Let `(ms, bf)` and
+`(ms', bf')` open the same commitment.  Then for every challenge and every choice of the prover's commitment scalars
+under the first opening there is a choice under the second that yields the *identical* proof, field for field (the
+commitment scalars are translated by `c·(witness − witness')`; by `cproof_determines_draws` the choice is unique, so
+the correspondence is a bijection between the two spaces of draws).  A proof therefore carries no information about
+which opening — which balance, nonce, revocation lock, blinding factor — the prover holds. -/
+theorem cproof_independent_of_witness (pp : PedParams G) (ms ms' : List F) (bf bf' : F)
+    (hlen : ms'.length = ms.length) (hC : commit pp bf ms = commit pp bf' ms') (c tbf : F) (ts : List F)
+    (hl : ts.length = ms.length) :
+    ∃ (tbf' : F) (ts' : List F), ts'.length = ms'.length ∧
+      (CBuilder.mk' pp ms bf tbf ts).respond c = (CBuilder.mk' pp ms' bf' tbf' ts').respond c := by
+  let ds := List.zipWith (fun m m' => 1 * m + (-1) * m') ms ms'
+  refine ⟨1 * tbf + c * (1 * bf + (-1) * bf'), List.zipWith (fun t d => 1 * t + c * d) ts ds, ?_, ?_⟩
+  · simp [ds, hl, hlen]
+  · have hds : ds.length = ms.length := by simp [ds, hlen]
+    have hT : commit pp (1 * tbf + c * (1 * bf + (-1) * bf')) (List.zipWith (fun t d => 1 * t + c * d) ts ds)
+        = commit pp tbf ts := by
+      rw [commit_lin pp 1 c tbf (1 * bf + (-1) * bf') ts ds (by rw [hl, hds]),
+        commit_lin pp 1 (-1) bf bf' ms ms' hlen.symm, hC]
+      module
+    simp only [CBuilder.mk', CBuilder.respond, CProof.mk.injEq]
+    refine ⟨hC, hT.symm, by ring, ?_⟩
+    exact (responses_reindexed c ms ms' ts hlen hl).symm
+
+/-- **The shown signature does not depend on which valid signature is stored.**  If `σ'` is a re-randomisation of `σ`
+by `ρ` (which any two signatures on one message under one key are, `valid_signatures_are_rerandomizations` below), then
+showing `σ'` with re-randomiser `r` is showing `σ` with re-randomiser `r·ρ`: for `ρ ≠ 0` the map `r ↦ r·ρ` is a
+bijection of the non-zero scalars, so what the merchant sees in a signature proof or a closing message is distributed
+independently of the signature it issued. -/
+theorem shown_signature_independent_of_stored (σ σ' : Sig G1) (ρ : F) (h1 : σ'.s1 = ρ • σ.s1) (h2 : σ'.s2 = ρ • σ.s2)
+    (r bf : F) :
+    σ'.blindAndRandomize r bf = σ.blindAndRandomize (r * ρ) bf ∧ σ'.randomize r = σ.randomize (r * ρ) := by
+  simp only [Sig.blindAndRandomize, Sig.randomize, h1, h2, Sig.mk.injEq]
+  refine ⟨⟨?_, ?_⟩, ?_, ?_⟩ <;> module
+
+/-- Two signatures that verify on the same messages under a key of the shape key generation produces, with
+`σ'₁ = ρ·σ₁`, are re-randomisations of one another in both components. -/
+theorem valid_signatures_are_rerandomizations {e : G1 → G2 → GT} (he : IsPairing F e) (kp : KeyPair F G1 G2) (hk : kp.Honest)
+    (hg2 : kp.pk.g2 ≠ 0) (σ σ' : Sig G1) (ms : List F) (hv : PsAccept e kp.pk σ ms) (hv' : PsAccept e kp.pk σ' ms)
+    (ρ : F) (h1 : σ'.s1 = ρ • σ.s1) : σ'.s2 = ρ • σ.s2 := by
+  have a := ((psAccept_honest_iff he kp hk hg2 σ ms).1 hv).2
+  have a' := ((psAccept_honest_iff he kp hk hg2 σ' ms).1 hv').2
+  rw [a', a, h1]
+  module
+
 /-! ### Closing messages -/
 
 /-- At every stage, the signature in a closing message is the stored closing signature
